@@ -80,6 +80,7 @@ static int heap_del(void *p)
 
 static void fd_add(int fd)
 {
+  if (!w_ledger) return;  // the ledger belongs to the single-threaded engines
   if (fd >= 0 && fd < MAXFD) {
     fd_owned[fd] = 1;
     fd_closed[fd] = 0;
@@ -199,11 +200,15 @@ static int next_k(int fn)
   return __atomic_fetch_add(&cnt[w_side][fn], 1, __ATOMIC_RELAXED);
 }
 
+static __thread int tidx;
+static int tidx_next;
+
 static trec *rec(int fn, int k, long a0, long a1, long a2)
 {
+  if (!tidx) tidx = __atomic_fetch_add(&tidx_next, 1, __ATOMIC_RELAXED) + 1;
   uint32_t i = __atomic_fetch_add(&W->ntr, 1, __ATOMIC_RELAXED);
   if (i >= W_MAXTR) {
-    W->overflow = 1;
+    __atomic_store_n(&W->overflow, 1, __ATOMIC_RELAXED);
     __atomic_store_n(&W->ntr, W_MAXTR, __ATOMIC_RELAXED);
     return &dummy_rec;
   }
@@ -213,6 +218,7 @@ static trec *rec(int fn, int k, long a0, long a1, long a2)
   t->side = (uint8_t) w_side;
   t->fn = (uint8_t) fn;
   t->flags = 0;
+  t->pad = (uint8_t) tidx;
   t->k = k;
   t->op = w_cur_op;
   t->err = 0;
@@ -293,7 +299,7 @@ pid_t __wrap_fork(void)
   }
   if (p > 0) {
     child_set(p, 1);
-    last_fork_op = w_cur_op;
+    if (w_vclock) last_fork_op = w_cur_op;  // single-threaded engines only
   }
   fin(t, p);
   return p;
